@@ -692,6 +692,20 @@ class C08(Prop):
                 slope = math.log(Na / Nb) / math.log(Lb / La)
                 if not close(slope, k, 1e-6):
                     return (f"log-log slope between loads {La!r} and {Lb!r} is {slope!r}, expected {k!r} (pf={p!r}); {tag}", "slope")
+        # ---- the scatter law in closed form, at every probability in (0,1) including the far tails: the curve at pf
+        # is the native one shifted by (z_pf - z_native) standard deviations, where TS and TN are the 10 %-90 % ratios
+        # (z from scipy directly, not through the code under test); the knee moves in load by TS^e and along the life axis
+        # by TN^e, then back along the k_1 line to the new SD - the same closed form Model/Woehler.lean states
+        from scipy import stats as st
+        z90 = float(st.norm.ppf(0.9))
+        znat = float(st.norm.ppf(nat))
+        for p, (SDp, NDp) in per_pf.items():
+            e = (float(st.norm.ppf(p)) - znat) / (2.0 * z90)
+            wantS, wantN = float(base.SD) * TS ** e, float(base.ND) * TN ** e * TS ** (-e * k1)
+            if math.isfinite(wantS) and wantS > 1e-290 and not close(SDp, wantS, 1e-9):
+                return (f"SD at pf={p!r} is {SDp!r}, the scatter law SD_native*TS^((z_pf-z_native)/(2 z_90)) gives {wantS!r}; {tag}", "scatter-law")
+            if math.isfinite(wantN) and wantN > 1e-290 and not close(NDp, wantN, 1e-9):
+                return (f"ND at pf={p!r} is {NDp!r}, the scatter law ND_native*TN^e*TS^(-e k_1), e=(z_pf-z_native)/(2 z_90), gives {wantN!r}; {tag}", "scatter-law")
         # ---- monotone in the failure probability
         ps = sorted(per_pf)
         for L in case["loads"]:
